@@ -19,7 +19,11 @@ def units(tier):
     us = [unit("internal_t1", ents(q, allt), 1, 0, q), unit("internal_t2", ents(q, allt), 2, 0, q), unit("serial", ents(q, allt), 1, 0, q, internal=False),
           unit("internal_t2_p1", ents(q, ["int", "uchar"] if q else allt), 2, 1, q)]
     us.append(unit("internal_t2_p2_join", [E("vp_main_pfor_join", "parallel_for(n), n in 2..3, two threads, EVERY schedule with <= 2 preemptions: all invocations have happened (and are visible) when the call returns - the join", q)], 2, 2, q))
+    full = lambda: [E("vp_main_pfor_nested_full", "nested parallel_for (outer 8/12, inner 3/6) with the per-thread pipe shrunk to 2 slots (hook RKCOMMON_VERIF_PIPESIZE_LOG2=1): the pipe-full fallback of SplitAndAddTask still runs every (i,j) exactly once", q)]
+    us.append(unit("internal_t3_pipe2", full(), 3, 0, q, extra_defs=["RKCOMMON_VERIF_PIPESIZE_LOG2=1"], validate=False))
+    us.append(unit("internal_t2_pipe2", full(), 2, 0, q, extra_defs=["RKCOMMON_VERIF_PIPESIZE_LOG2=1"], validate=False))
     if not q:
+        us += [unit("internal_t2_pipe2_p1", full(), 2, 1, q, extra_defs=["RKCOMMON_VERIF_PIPESIZE_LOG2=1"], validate=False)]
         us += [unit("internal_t3", ents(q, allt), 3, 0, q), unit("internal_t2_p2", ents(q, ["int", "uchar"]), 2, 2, q),
                unit("internal_t2_p3_join", [E("vp_main_pfor_join", "the join under every schedule with <= 3 preemptions (2 threads, n in 2..3)", q)], 2, 3, q)]
     return us
